@@ -201,24 +201,19 @@ def makePeriodic (P : AssetProblem) (labels : List (Nat × Nat × Nat)) : Except
 
 /-! ## coarse asset frequency: `__extend_mapping_to_minor_grid__` -/
 
-/-- inner loop `for my_t in I` for one mapping row.  `rr` is copied from the row ONCE, in front of the
-    loop; when the incoming mapping has a `disp_factor` column (`hasFactor`) the code multiplies the
-    factor kept in `rr` by the weight in every iteration, so the weights accumulate (`acc`) — transport
-    assets with `freq` get `w₁f, w₂w₁f, …`.  Without the column the weight itself is written. -/
-def extendSteps (dtFine : List Rat) (dtCoarse : Rat) (hasFactor : Bool) (r : MapRow) : List Nat → Rat → List MapRow
-  | [], _ => []
-  | t :: ts, acc =>
-    let w := dtFine.getD t 0 / dtCoarse
-    let f := if hasFactor then w * acc else w
-    { r with step := t, factor := f } :: extendSteps dtFine dtCoarse hasFactor r ts f
+/-- inner loop `for my_t in I` for one mapping row: one copy of the row per minor step, with that step and
+    the factor `weight · disp_factor` of the ORIGINAL row, `weight = dt_fine/dt_coarse`.  A mapping without a
+    `disp_factor` column gets the weight itself — the same value, since a missing factor is 1. -/
+def extendSteps (dtFine : List Rat) (dtCoarse : Rat) (r : MapRow) (I : List Nat) : List MapRow :=
+  I.map fun t => { r with step := t, factor := dtFine.getD t 0 / dtCoarse * r.factor }
 
 /-- position of the coarse step of a row: `np.where(restricted.I == r['time_step'])[0][0]` -/
 def majorOf (cg : CoarseGrid) (r : MapRow) : Option Nat := cg.grid.idx.idxOf? r.step
 
-def extendRow (cg : CoarseGrid) (dtFine : List Rat) (hasFactor : Bool) (r : MapRow) : List MapRow :=
+def extendRow (cg : CoarseGrid) (dtFine : List Rat) (r : MapRow) : List MapRow :=
   match majorOf cg r with
   | none => []
-  | some i => extendSteps dtFine (cg.grid.dt.getD i 0) hasFactor r (cg.minor.getD i []) r.factor
+  | some i => extendSteps dtFine (cg.grid.dt.getD i 0) r (cg.minor.getD i [])
 
 /-- all look-ups of the loop are defined -/
 def extendOK (M : List MapRow) (cg : CoarseGrid) (dtFine : List Rat) : Bool :=
@@ -234,12 +229,8 @@ inductive ExtendError | index
 /-- one output row per mapping row and minor step, in the order of the two loops.  `IndexError`/`KeyError`
     (a step that is not a coarse step, a minor index outside the fine grid, an empty mapping — the final
     `mapping['time_step']` then fails) are one error class. -/
-def extendMinor (M : List MapRow) (cg : CoarseGrid) (dtFine : List Rat) (hasFactor : Bool) : Except ExtendError (List MapRow) :=
-  if extendOK M cg dtFine then .ok (M.flatMap (extendRow cg dtFine hasFactor)) else .error .index
-
-/-- the intended behaviour (every minor step gets `weight · disp_factor` of the ORIGINAL row) -/
-def extendStepsRepaired (dtFine : List Rat) (dtCoarse : Rat) (r : MapRow) (I : List Nat) : List MapRow :=
-  I.map fun t => { r with step := t, factor := dtFine.getD t 0 / dtCoarse * r.factor }
+def extendMinor (M : List MapRow) (cg : CoarseGrid) (dtFine : List Rat) : Except ExtendError (List MapRow) :=
+  if extendOK M cg dtFine then .ok (M.flatMap (extendRow cg dtFine)) else .error .index
 
 /-! ## generic merge of columns (specification level; the subject of `C13.merge_columns`)
 
